@@ -173,4 +173,34 @@ def run(ctx):
     if ctf:
         from .shared import rollback_scope
         rollback_scope(ctx, R6, ctf, ctf.id)
+    R7 = "C03.R7"
+    run.rule(R7, "a reservation is persisted: Batch::lock_output stores the record it marked Locked", floor=2)
+    lo = ctx.fn("<" + c.IMPLS + "backends::lmdb::Batch<'a, C, K> as " + c.LW + "types::WalletOutputBatch<K>>::lock_output")
+    if lo:
+        lk_calls = cfg.find_calls(lo, c.LW + "types::OutputData::lock")
+        sv = [(b, t) for b, t in lo.calls() if (t.get("f") or "").endswith("WalletOutputBatch::save") or (t.get("f") or "").endswith("::save")]
+        held = len(lk_calls) == 1 and len(sv) >= 1
+        if held:
+            b, t = sv[0]
+            # the saved value is the parameter that was locked, saved after the lock() call, and Ok needs the save's Ok
+            src = vf.producers(lo, t["a"][1]) | vf.origins(lo, t["a"][1])
+            held = any(x[0] == "arg" and x[1] == 2 for x in src)
+            e = c.after_call_edges(lo, c.LW + "types::OutputData::lock")
+            held = held and cfg.must_pass(lo, e, {b})[0]
+            rets = cfg.return_blocks(lo)
+            after_save = c.after_call_edges(lo, t["f"])
+            held = held and cfg.must_pass(lo, after_save, rets)[0]
+        run.instance(R7, {"fn": "lmdb::Batch::lock_output", "obligation": "out.lock() then save(out): the Locked status reaches the store"}, held=held)
+        if not held:
+            run.finding(Finding(R7, lo.id, "lock_output no longer stores the record it marked Locked", site=lo.loc()))
+    odl = ctx.fn(c.LW + "types::OutputData::lock")
+    if odl:
+        asg = vf.field_assignments(odl, c.LW + "types::OutputData", "status")
+        vals = set()
+        for b, st in asg:
+            vals |= vf.producers(odl, st["r"]["o"]) if st["r"]["k"] == "use" else {("complex",)}
+        h = vals == {("agg", c.LW + "types::OutputStatus", "Locked")}
+        run.instance(R7, {"fn": "OutputData::lock", "obligation": "sets status := Locked"}, held=h)
+        if not h:
+            run.finding(Finding(R7, odl.id, "OutputData::lock does not set the status to Locked", site=odl.loc()))
     run.not_decided += ["exclusivity as a statement about all interleaved histories (R1-R5 are the structural necessary conditions)", "finalize replay: covered by C02.R2 (context deleted => second finalize fails)"]
